@@ -277,10 +277,30 @@ func main() {
 	seed := flag.Uint64("seed", 1, "")
 	tier := flag.String("tier", "quick", "")
 	replay := flag.String("replay", "", "")
-	chat := flag.String("chatter", "", "helper process mode: seed,lines,maxlen,finalnl")
+	chat := flag.String("chatter", "", "helper process mode: seed,lines,maxlen,finalnl,exit")
+	trees := flag.String("gentrees", "", "write fresh project trees with their expected event files under this directory")
 	flag.Parse()
 	if *chat != "" {
 		chatter(*chat)
+		return
+	}
+	if *trees != "" {
+		n := 25
+		if *tier == "thorough" {
+			n = 400
+		}
+		var one *Case
+		if *replay != "" {
+			var in struct {
+				Case *Case `json:"case"`
+			}
+			if err := json.Unmarshal([]byte(*replay), &in); err != nil || in.Case == nil {
+				fmt.Fprintln(os.Stderr, "bad replay input for -gentrees")
+				os.Exit(2)
+			}
+			one, n = in.Case, 1
+		}
+		genTrees(*trees, &rng{s: *seed ^ 0xc11}, n, one)
 		return
 	}
 	defer func() {
